@@ -20,6 +20,10 @@ ASSUMPTIONS = [
     "several columns, defined names and CSE arrays are exercised by C05/C13, not here",
     "openpyxl, networkx and the xlsx reader are not modelled: the stored-results configuration reads "
     "real .xlsx files whose cached values were injected into the sheet XML",
+    "tiny streams: the numbers are dyadic (steps 2^-30 / 2^-27 on values below 8, 2^-20 / 2^-10 on values below 2^25) "
+    "and every intermediate result has fewer than 53 significant bits, so the implementation's float arithmetic is "
+    "exact and the exact-rational machine is compared bit for bit (a wider float-exact domain than the j <= 12 of "
+    "DESIGN.md 4, for +, -, comparison, multiplication by a power of two and SUM/MIN/MAX/COUNT only)",
 ]
 
 
@@ -40,7 +44,8 @@ def _blank_result(case):
 
 
 STREAMS = ['clean', 'clean', 'clean', 'clean', 'clean', 'loaded', 'stored_clean', 'stored',
-           'none', 'eqtype', 'blankres', 'stored_partial', 'unb', 'unb_stored', 'unb_loaded']
+           'none', 'eqtype', 'blankres', 'stored_partial', 'unb', 'unb_stored', 'unb_loaded',
+           'tiny', 'tiny_stored', 'tiny_loaded', 'stored_stale']
 
 # the 'unb' streams: two-column workbooks of harness/wbgen.py (gen_workbook(colb=True)) - constants in column B,
 # the whole-column reference S!B:B (a node of range kind in the model: alias of the bounded range node S!B1:Bm,
@@ -48,14 +53,134 @@ STREAMS = ['clean', 'clean', 'clean', 'clean', 'clean', 'loaded', 'stored_clean'
 # configurations; writes go to the inputs of both columns (blank writes into column B included), every node
 # is evaluated, S!B:B and S!B1:Bm themselves included; value, cache snapshot (the reference node's cached value)
 # and built set are compared with the model after every operation
-CONFIG = {'unb': 'clean', 'unb_stored': 'stored_clean', 'unb_loaded': 'loaded'}
+CONFIG = {'unb': 'clean', 'unb_stored': 'stored_clean', 'unb_loaded': 'loaded',
+          'tiny': 'clean', 'tiny_stored': 'stored_clean', 'tiny_loaded': 'loaded'}
+UNB = ('unb', 'unb_stored', 'unb_loaded')
+TINY = ('tiny', 'tiny_stored', 'tiny_loaded')
+
+# the 'tiny' streams: numeric inputs (floats and large integers) whose writes are mostly VERY SMALL steps away from
+# the present value - 2^-30 around 0 and around small numbers, 2^-20 / 2^-10 around numbers up to 2^25, +-1 on large
+# integers, the step back to the value before, a few steps in a row in one direction (a goal-seek / bisection loop) -
+# read by formulas that compare (=A1>1, =A2=0, =A1<>A3) or amplify (=A3-250000 followed by =A5*1048576) and by
+# aggregates; every formula is evaluated before the first write.  All values are dyadic with at most 50 significant
+# bits in every intermediate result, so the exact machine of Model/Graph.v follows every write and a compiler that
+# drops a write "within float noise" disagrees with it (and with the from-scratch compile of the oracle).
+TINY_SMALL = [0.0, 0.0, 1.0, 1.0, 0.5, 2.0, -1.0, 3.0, 0, 1]
+TINY_LARGE = [250000.0, 250000.0, 250000, 1048576.0, 33554431, 65536.5, -1000000.0, 4096.0, 100000, 16777216.0]
 
 
-def fresh_value(wb, inputs, idx):
-    """The property's reference: a from-scratch compile with the current inputs."""
+def gen_tiny_workbook(rng, xlsx=False):
+    """Returns (wb, regime).  Regime 'small': inputs near 0/1, steps 2^-30 / 2^-27; regime 'large': inputs up to 2^25,
+    steps 2^-20 / 2^-10 / 1 (relative distance below 1e-5)."""
+    regime = rng.choice(['small', 'large'])
+    pool = TINY_SMALL if regime == 'small' else TINY_LARGE
+    wb = wbgen.WB()
+    n_in = rng.randrange(2, 5)
+    for _ in range(n_in):
+        v = rng.choice(pool)
+        if xlsx and isinstance(v, float) and v.is_integer():
+            v = int(v)          # an .xlsx file does not tell 4096.0 from 4096: the reader answers the integer
+        wb.add_input(v)
+    if rng.random() < 0.5:
+        # two inputs that start equal: =A1=A2 / =A1<>A2 / =A1<A2 flip on the first tiny write
+        wb.nodes[wb.rows[1]]['value'] = wb.nodes[wb.rows[0]]['value']
+    cmp_ops = [('=', 7), ('<>', 8), ('<', 9), ('<=', 10), ('>', 11), ('>=', 12)]
+    for _ in range(rng.randrange(3, 7)):
+        rows_in = list(range(1, n_in + 1))
+        r = rng.choice(rows_in)
+        base = wb.nodes[wb.rows[r - 1]]['value']
+        kind = rng.random()
+        if kind < 0.35:
+            # comparison with the integer the input starts at (or next to), or with another input
+            (sym, code) = rng.choice(cmp_ops)
+            if rng.random() < 0.6:
+                z = int(base // 1)
+                wb.add_formula(f'=A{r}{sym}{z}', [wb.rows[r - 1]], [3, code, [0, 0], [1, z]])
+            else:
+                r2 = rng.choice([x for x in rows_in if x != r])
+                wb.add_formula(f'=A{r}{sym}A{r2}', [wb.rows[r - 1], wb.rows[r2 - 1]], [3, code, [0, 0], [0, 1]])
+        elif kind < 0.65:
+            # amplification: (A_r - base) * 2^j in two cells
+            z = int(base // 1)
+            d = wb.add_formula(f'=A{r}-{z}', [wb.rows[r - 1]], [3, 1, [0, 0], [1, z]])
+            row = wb.nodes[d]['row']
+            j = rng.choice([10, 20]) if regime == 'large' else rng.choice([20, 30])
+            wb.add_formula(f'=A{row}*{2 ** j}', [d], [3, 2, [0, 0], [1, 2 ** j]])
+        elif kind < 0.8:
+            r2 = rng.choice([x for x in rows_in if x != r])
+            wb.add_formula(f'=A{r}-A{r2}', [wb.rows[r - 1], wb.rows[r2 - 1]], [3, 1, [0, 0], [0, 1]])
+        else:
+            r1 = rng.randrange(1, n_in)
+            r2 = rng.randrange(r1 + 1, n_in + 1)
+            (name, w) = rng.choice(wbgen.AGGS)
+            wb.add_formula(f'={name}(A{r1}:A{r2})', [wb.get_range(r1, r2)], [5, w, [0, 0]])
+    if rng.random() < 0.6:
+        # a reader of an earlier formula cell (the stale value travels on)
+        f = rng.choice(wb.formulas())
+        row = wb.nodes[f]['row']
+        wb.add_formula(f'=A{row}=0', [f], [3, 7, [0, 0], [1, 0]])
+    return wb, regime
+
+
+def tiny_write(rng, regime, old, before):
+    """The next value of an input of a tiny-stream workbook: same Python type as the present value (so that only
+    the value comparison of set_value decides), mostly a very small step away from it."""
+    r = rng.random()
+    if isinstance(old, int) and not isinstance(old, bool):
+        if regime == 'large' and abs(old) >= 2 ** 17 and r < 0.6:
+            return old + rng.choice([1, -1, 2, 1])
+        if r >= 0.85:
+            return rng.choice([x for x in (TINY_SMALL if regime == 'small' else TINY_LARGE)
+                               if isinstance(x, int) and x != old])
+        old, r = float(old), 0.5      # from the integer to a float next to it (the type changes), small steps from there on
+    if r < 0.12:
+        pool = [x for x in (TINY_SMALL if regime == 'small' else TINY_LARGE) if isinstance(x, float) and x != old]
+        return rng.choice(pool)                                   # an ordinary write
+    if r < 0.27 and before is not None and type(before) is float and before != old:
+        return before                                             # the step back
+    if regime == 'small':
+        step = rng.choice([2.0 ** -30, 2.0 ** -30, 2.0 ** -27, -2.0 ** -30])
+    elif abs(old) >= 2 ** 21:
+        step = rng.choice([2.0 ** -20, 2.0 ** -10, 1.0, -2.0 ** -10, 16.0])
+    else:
+        step = rng.choice([2.0 ** -20, 2.0 ** -20, 2.0 ** -10, -2.0 ** -20, 0.5])
+    new = old + step
+    if abs(new) >= 2 ** 25 or (regime == 'small' and abs(new) >= 8):
+        new = old - step
+    return new
+
+
+def fresh_value(wb, inputs, idx, consts=None):
+    """The property's reference: a from-scratch compile with the current inputs (consts: formula cells that hold
+    a constant instead of their formula, {node index: value})."""
     from pycel import ExcelCompiler
-    c = ExcelCompiler(excel=wb.to_openpyxl(inputs))
+    extra = {(wb.nodes[i]['row'], 1): v for i, v in (consts or {}).items()}
+    c = ExcelCompiler(excel=wb.to_openpyxl(inputs, extra=extra))
     return canon(c.evaluate(wb.nodes[idx]['addr']))
+
+
+# the 'stored_stale' stream: an .xlsx in which EVERY formula cell carries a stored result and some of these results
+# are not what pycel computes (a file edited after it was last calculated, a volatile function, a function pycel
+# computes differently).  What the library does, and what the stream demands: a stored result is the cell's value -
+# whichever way the cell first enters the model (asked for itself, as a precedent, as a member of a range that is
+# evaluated or that a formula reads) - until a write to one of its ancestors invalidates it; from then on it is
+# computed from the present values of its precedents.  First every node (cells and ranges, random order) is
+# evaluated, then the usual history.  The reference is independent of the order: a from-scratch compile of the
+# workbook in which every formula cell not below a written input is replaced by its stored result.
+def stale_result(v):
+    if isinstance(v, bool):
+        return not v
+    if isinstance(v, (int, float)):
+        return v + 1000
+    return 'stale' if v != 'stale' else 'stale2'
+
+
+def stale_value(wb, inputs, idx, stored, written):
+    below = set()
+    for a in written:
+        below |= wb.descendants(a)
+    consts = {i: stored[i] for i in wb.formulas() if i not in below}
+    return fresh_value(wb, inputs, idx, consts)
 
 
 def trim(v):
@@ -71,11 +196,14 @@ def trim(v):
 def make_compiler(ctx, wb, stream, k):
     """Returns (compiler, model prefix ops, stored dict)."""
     from pycel import ExcelCompiler
-    unb = stream in CONFIG
+    unb = stream in UNB
     stream = CONFIG.get(stream, stream)
-    if stream in ('stored', 'stored_clean', 'stored_partial'):
+    if stream in ('stored', 'stored_clean', 'stored_partial', 'stored_stale'):
         ref = ExcelCompiler(excel=wb.to_openpyxl())
         results = {i: ref.evaluate(wb.nodes[i]['addr']) for i in wb.formulas()}
+        if stream == 'stored_stale' and results:
+            for i in [i for i in results if ctx.rng.random() < 0.5] or [ctx.rng.choice(sorted(results))]:
+                results[i] = stale_result(results[i])
         if stream == 'stored_partial':
             # a file in which some formula cells have no cached result while their dependants do
             for i in wb.formulas():
@@ -126,16 +254,28 @@ def run(ctx):
         "workbooks (constants and trailing blanks in column B; formulas of column A over the whole column B:B, "
         "the explicit range B1:Bm it stands for, smaller blocks and single cells of column B) in the three "
         "configurations, the reference node S!B:B and the range nodes evaluated and snapshot like every other "
-        "node; distinct = distinct (workbook, history)")
-    nwb = ctx.n(1750, 25000)
+        "node; tiny / tiny_stored / tiny_loaded: numeric inputs (floats, large integers) read by comparisons with the "
+        "starting value or another input, by amplifiers (=A1-250000 then =A5*1048576) and aggregates, every formula "
+        "evaluated first, then writes of the same Python type at very small distances from the present value (2^-30 "
+        "around 0 and small numbers, 2^-20 / 2^-10 around numbers up to 2^25, +-1 on integers above 2^17, steps back, "
+        "several steps in a row), all dyadic so that the exact model follows each of them; stored_stale: xlsx in which "
+        "every formula cell has a stored result and about half of them a WRONG one (stale file), every node evaluated "
+        "first in a random order (a cell enters the model by itself, as a precedent or as a member of a range), then "
+        "the usual history: the reference is a from-scratch compile in which the formula cells not below a written "
+        "input hold their stored results; "
+        "distinct = distinct (workbook, history)")
+    nwb = ctx.n(2250, 30000)
     batch = []       # (case meta, model call)
     os.makedirs(ctx.work, exist_ok=True)
     for k in range(nwb):
         stream = STREAMS[k % len(STREAMS)]
         pool = wbgen.POOL if stream in ('none', 'eqtype') else wbgen.CLEAN_POOL
-        unb = stream in CONFIG
+        unb = stream in UNB
+        tiny = None
         if unb:
             wb = wbgen.gen_workbook(rng, ncells=rng.randrange(4, 9), pool=pool, colb=True)
+        elif stream in TINY:
+            wb, tiny = gen_tiny_workbook(rng, xlsx=(stream == 'tiny_stored'))
         else:
             wb = wbgen.gen_workbook(rng, ncells=rng.randrange(5, 11), pool=pool,
                                     blank_results=(stream == 'blankres'))
@@ -162,11 +302,21 @@ def run(ctx):
         late_build = False
         hist_repr = []
         pending = None          # the cell written last: looked at (itself or a dependant) soon after
-        for step in range(rng.randrange(8, 15)):
+        first_evals = list(wb.formulas()) if tiny else []      # tiny streams: every formula has a value before the first write
+        if stream == 'stored_stale':
+            first_evals = list(range(len(wb.nodes)))     # every node enters the model before the first write,
+            rng.shuffle(first_evals)                     # cells before or after the ranges that contain them
+        before = {}             # tiny streams: the value an input had before its last write
+        for step in range(rng.randrange(8, 15) + len(first_evals)):
             built_inputs = [i for i in wb.inputs() if wb.nodes[i]['addr'] in comp.cell_map]
-            if built_inputs and rng.random() < 0.45:
+            if built_inputs and not first_evals and rng.random() < 0.45:
                 a = rng.choice(built_inputs)
-                if stream == 'none':
+                if tiny and pending is not None and wb.nodes[pending]['addr'] in comp.cell_map and rng.random() < 0.3:
+                    a = pending      # several small steps in a row on one input, nothing evaluated in between
+                if tiny:
+                    v = tiny_write(rng, tiny, inputs[a], before.get(a))
+                    before[a] = inputs[a]
+                elif stream == 'none':
                     v = rng.choice([None, None] + wbgen.CLEAN_POOL)
                 elif stream == 'eqtype':
                     old = inputs[a]
@@ -194,8 +344,10 @@ def run(ctx):
                 if unb and rng.random() < 0.7:
                     # not the constants of column B: formulas, ranges, the reference node, column-A inputs
                     n = rng.choice([i for i, x in enumerate(wb.nodes) if not (x['kind'] == 'input' and x.get('col') == 2)])
-                if pending is not None and rng.random() < 0.6:
+                if pending is not None and rng.random() < (0.85 if tiny else 0.6):
                     n = rng.choice([pending] + sorted(wb.descendants(pending)))
+                if first_evals:
+                    n = first_evals.pop(0)
                 pending = None
                 addr = wb.nodes[n]['addr']
                 if written and addr not in comp.cell_map and any(
@@ -212,7 +364,8 @@ def run(ctx):
                 impl_trace.append((r, wbgen.snapshot(comp, wb)))
                 # ---- the property's oracle
                 try:
-                    want = fresh_value(wb, inputs, n)
+                    want = fresh_value(wb, inputs, n) if stream != 'stored_stale' else \
+                        stale_value(wb, inputs, n, stored, written)
                 except Exception as exc:    # noqa: BLE001
                     ctx.violation(dict(call='history', stream=stream, late_build=late_build,
                                        workbook=[(x['addr'], x.get('value'), x.get('text')) for x in wb.nodes],
@@ -220,7 +373,16 @@ def run(ctx):
                                   f"a from-scratch compile with the current inputs raises {type(exc).__name__}: {exc}"[:200])
                     break
                 ctx.count((k, step), kind='oracle:' + stream)
-                if r != want:
+                if r != want and stream == 'stored_stale':
+                    ctx.violation(dict(call='history', stream=stream, late_build=late_build,
+                                       workbook=[(x['addr'], x.get('value'), x.get('text')) for x in wb.nodes],
+                                       stored={wb.nodes[i]['addr']: v for i, v in stored.items()},
+                                       history=list(hist_repr)),
+                                  "xlsx whose stored results differ from what the formulas give: evaluate is not the stored "
+                                  "result (cells not below a written input) / the value computed from the present values "
+                                  "of the precedents (cells below one) - it depends on how the cell entered the model",
+                                  impl=r, expected=want)
+                elif r != want:
                     ctx.violation(dict(call='history', stream=stream, late_build=late_build,
                                        workbook=[(x['addr'], x.get('value'), x.get('text')) for x in wb.nodes],
                                        history=list(hist_repr)),
